@@ -2338,7 +2338,10 @@ class Kconfig(object):
             sym._old_val = None
 
         try:
-            auto_conf = open(join(path, "auto.conf"), "r", encoding=self._encoding)
+            # errors="replace": a previous sync may have died while writing auto.conf, possibly in the middle of a
+            # multi-byte character. The incomplete last line then matches no pattern below and is ignored (the
+            # symbol gets no old value and is flagged), instead of UnicodeDecodeError ending every later sync
+            auto_conf = open(join(path, "auto.conf"), "r", encoding=self._encoding, errors="replace")
         except EnvironmentError as e:
             if e.errno == errno.ENOENT:
                 # No old values
@@ -2629,9 +2632,10 @@ class Kconfig(object):
                 # Robust re. things like encoding and line endings (mmap()
                 # trickery isn't)
                 return f.read(len(contents) + 1) == contents
-        except EnvironmentError:
+        except (EnvironmentError, UnicodeError):
             # If the error here would prevent writing the file as well, we'll
-            # notice it later
+            # notice it later. A file that cannot be decoded (e.g. cut in the
+            # middle of a character by an interrupted write) is not equal
             return False
 
     #
